@@ -400,3 +400,16 @@ Proof.
   rewrite Hb0. destruct (Z.eqb_spec (s_A s - s_Fl s) (s_cap s - 1)) as [E|E]; [|discriminate].
   rewrite (si_cap _ _ _ _ HI) in E. lia.
 Qed.
+
+(* non-vacuity: capacity 4, the run starts 4 allocations before the uint32 wrap of alloc_idx; the
+   allocator takes blocks 0,1,2, is refused (3 = cap-1 outstanding), the freer releases block 1 (and 0),
+   the allocator then takes blocks 3 and 0 across the wrap (alloc_idx = 1 afterwards) *)
+Example sowr_nonvacuous_wrap :
+  let scripts := fun t => match t with 0%nat => [OpAlloc; OpAlloc; OpAlloc; OpAlloc; OpAlloc; OpAlloc]
+                                      | 1%nat => [OpFree 1] | _ => [] end in
+  let s := sowr_run {| mo_ts_load_free := Acq; mo_ts_cas_alloc := Rlx; mo_ts_store_free := Rel; mo_spin_tas := Acq;
+                       mo_spin_clear := Rel; mo_sowr_load_free := Rlx; mo_sowr_store_free := Rlx;
+                       mo_ring_load_inuse := Rlx; mo_ring_store_inuse := Rlx |}
+             4 (two32 - 4) 2 scripts (repeat (0, 0) 11 ++ repeat (1, 0) 5 ++ repeat (0, 0) 9)%nat in
+  s_alloc s = 1 /\ s_A s = two32 + 1 /\ s_out s = [(2, 0); (3, 0); (0, 0)]%nat /\ s_dups s = 0%nat /\ s_badnull s = 0%nat.
+Proof. vm_compute. repeat split; reflexivity. Qed.
